@@ -206,6 +206,14 @@ def run_case(case, ctx):
             exp = [tuple(b) for b in exp_it] if width > 1 else [b[0] for b in exp_it]
             ctx.need(got == exp, "generic/BatcherIter/batches",
                      lambda: "n=%d bs=%d width=%d cut=%d: %r expected %r" % (n, bs, width, cut, got, exp))
+        if width > 1:
+            # a tuple of re-iterable columns: every iteration of one BatcherIter starts afresh, too
+            bi = G.BatcherIter(tuple(cols), bs)
+            one = guard(ctx, "BatcherIter", lambda: common_take(bi, nb + 2))
+            two = guard(ctx, "BatcherIter", lambda: common_take(bi, nb + 2))
+            expt = [tuple(list(c) for c in b) for b in exp_batches]
+            ctx.need(one == expt and two == expt, "generic/BatcherIter/second-iteration-differs",
+                     lambda: "n=%d bs=%d width=%d: first iteration %r second %r expected %r" % (n, bs, width, one, two, expt))
         if width == 1 and typ != "gen":
             # over a re-iterable input every iteration of one BatcherIter starts afresh
             bi = G.BatcherIter(cols[0], bs)
